@@ -2277,17 +2277,35 @@ class GattServer(GattLayer):
             # Retrieve attribute from model
             attr = self.server_model.find_object_by_handle(request.handle)
 
-            # Queue request
-            if request.handle not in self.__write_queues:
-                self.__write_queues[request.handle] = []
-            self.__write_queues[request.handle].append(request)
+            if isinstance(attr, CharacteristicValue):
+                # Queue request
+                if request.handle not in self.__write_queues:
+                    self.__write_queues[request.handle] = []
+                self.__write_queues[request.handle].append(request)
 
-            # Send response
-            self.att.prepare_write_response(
-                request.handle,
-                request.offset,
-                request.value
-            )
+                # Send response
+                self.att.prepare_write_response(
+                    request.handle,
+                    request.offset,
+                    request.value
+                )
+            elif isinstance(attr, ClientCharacteristicConfig):
+                # A CCCD can be written (Write Request / Write Command) but
+                # queued writes are only supported for characteristic values:
+                # refuse now rather than skip it silently at execution time
+                self.error(
+                    BleAttOpcode.PREPARE_WRITE_REQUEST,
+                    request.handle,
+                    BleAttErrorCode.REQUEST_NOT_SUPP
+                )
+            else:
+                # Services, declarations and the other descriptors cannot be
+                # written by a client (same answer as for a Write Request)
+                self.error(
+                    BleAttOpcode.PREPARE_WRITE_REQUEST,
+                    request.handle,
+                    BleAttErrorCode.WRITE_NOT_PERMITTED
+                )
 
         except IndexError:
             self.error(
